@@ -62,6 +62,8 @@ def handle : Handler := fun j => do
       else if hasExisting && active != modelActive then
         some (if modelActive then "auto-refresh-enabled-but-inactive" else "auto-refresh-disabled-but-active")
       else if hasExisting && !active && !visible then some "explicit-refresh-does-not-see-the-final-directories"
+      else if getBoolD obs "late" false && !getBoolD obs "lateseen" true then
+        some "directory-created-after-the-configuration-is-not-picked-up"
       else none
     pure (verdict agree judge
       (Json.mkObj [("watchers", final.res.watchers), ("watches", final.res.watches), ("auto", final.fields.auto)])
@@ -70,6 +72,7 @@ def handle : Handler := fun j => do
        (if final.stale then ["scan-failed-in-shortage"] else []) ++
        (if shortLast && final.watcherLive then ["watcher-reused-released-descriptors"] else []) ++
        (if shortLast && final.fields.auto && !final.watcherLive then ["nil-watcher"] else []) ++
+       (if getBoolD obs "late" false then ["directory-created-afterwards"] else []) ++
        (if hist.length ≥ 100 then ["long-history"] else [])))
   | "default" =>
     let same ← getBool obs "sameasfresh"
